@@ -191,10 +191,13 @@ func (m *Map) Range(f func(key, value any) bool) {
 }
 
 // Pool mirrors sync.Pool. Outside an exploration it is the real pool. Under the scheduler it
-// is a per-execution LIFO shared by all threads: Get and Put are scheduling points, Put(x)
-// happens-before the Get that returns x, and a Get deterministically returns the value Put most
-// recently by ANY thread, so that the interleaving "A puts, B gets A's object while A still
-// uses it" exists and can be judged (the real pool may or may not produce it).
+// is a per-execution multiset shared by all threads: Get and Put are scheduling points, Put(x)
+// happens-before the Get that returns x, and WHICH value a Get returns is a data choice the
+// explorer branches over: any value Put before by ANY thread (most recent first) or none of
+// them (New is called) -- exactly the freedom sync.Pool documents. So "A puts, B gets A's
+// object while A still uses it", "a value Put twice is handed to two callers" and "the pool
+// dropped the value" all exist as explored executions. Misuse of the pool is never reported by
+// itself: its effects are judged by the differential and the happens-before oracles.
 type Pool struct {
 	New  func() any
 	real sync.Pool
